@@ -715,7 +715,7 @@ pub fn drive_stats(ctx: &mut Ctx, rng: &mut Rng, thorough: bool) {
         c.client_stats = *client_stats;
         let mut rig = match new_section(ctx, c) { Some(r) => r, None => continue };
         let srv = rig.srv.clone();
-        for _ in 0..(if thorough { 60 } else { 20 }) {
+        for r in 0..(if thorough { 60 } else { 24 }) {
             let n = rng.range(1, 20) as usize;
             let mut sends: Vec<(usize, Vec<u8>)> = (0..n).map(|i| (i % 12, match rng.below(3) { 0 => mutant(rng, &srv), 1 => valid_request(rng, Proto::Google, 1024, None), _ => valid_request(rng, Proto::Ietf, 1028, None) })).collect();
             // failed sends: valid requests from a source the operating system refuses to send to, anywhere in the burst
@@ -727,7 +727,15 @@ pub fn drive_stats(ctx: &mut Ctx, rng: &mut Rng, thorough: bool) {
                 }
             }
             run_round(ctx, &mut rig, sends, vec![], false);
+            // the status timer's step, now and then (twice in a row too: the second publishes nothing)
+            if r % 6 == 5 { let e = rig.publish_event(); ctx.emit(e); if r % 12 == 11 { let e = rig.publish_event(); ctx.emit(e); } }
         }
+        // a period in which exactly ONE client address is seen, then publication; then an empty period
+        run_round(ctx, &mut rig, vec![(3, valid_request(rng, Proto::Google, 1024, None)), (3, valid_request(rng, Proto::Ietf, 1024, None))], vec![], false);
+        let e = rig.publish_event(); ctx.emit(e);
+        let e = rig.publish_event(); ctx.emit(e);
+        run_round(ctx, &mut rig, vec![(5, rng.bytes(40))], vec![], false);
+        let e = rig.publish_event(); ctx.emit(e);
         let st = rig.stats_event();
         ctx.emit(st);
     }
